@@ -40,7 +40,8 @@ RULE = (
     "dirs, Hyper-V, envelope, keystore, VMX plain+encrypted, vmtar plain+gzip). Mutations: every known field x {0, 1, 2, max, "
     "max-1, value+-1, its own offset, another table's offset, file size} (enumerated), any aligned word of the metadata area "
     "set to such values, truncation at structure boundaries +-1 and at random points, random multi-byte corruption, splices, "
-    "crafted cycles (Parallels ParentGUID cycles of length 1..4 incl. cycles the start only leads into, Hyper-V object tables "
+    "runs of 25..3000 equal characters inserted at the structural positions of the text formats, Parallels storage bounds that do "
+    "not join up, crafted cycles (VHDX parent locators of length 1..3 opened by path, Parallels ParentGUID cycles of length 1..4 incl. cycles the start only leads into, Hyper-V object tables "
     "referencing themselves / each other at aligned and unaligned offsets, key-table parent loops, QCOW2 L1->header, VHDX region->itself) and decompression "
     "bombs (QCOW2 cluster / VMDK grain whose deflate stream expands to >= 64 MiB), and a sweep of one request per grain over a "
     "stream-optimised VMDK of 48 compressed 4 MiB grains (memory must follow the request, not the history). The driver opens the input and touches the "
@@ -232,6 +233,7 @@ def biggrain_vmdk(ngrains=48, grain=8192):
     return bytes(out)
 
 
+TEXT_SEEDS = ["vmx", "vmx-encrypted", "keystore", "vmdk-descriptor"]
 SEED_NAMES = ["qcow2", "qcow2-v2", "qcow2-extl2", "qcow2-snap", "qcow2-bomb", "vmdk-kdmv", "vmdk-stream", "vmdk-cowd", "vmdk-sesparse", "vmdk-bomb",
               "vmdk-descriptor", "vhdx", "vhd-dyn", "vhd-fixed", "vdi", "hds-v1", "hds-v2", "hyperv", "envelope", "keystore", "vmx", "vmx-encrypted",
               "vmtar", "vmtar-gz", "hdd-descriptor"]
@@ -305,6 +307,21 @@ def exhaustive(tier):
                     extra.append(["set", off, width, hole[1] & ((1 << (8 * width)) - 1), order])
             yield {"seed": sname, "ops": ops + extra, "field": "big-unit-holes"}
             yield {"seed": sname, "ops": ops[:1] + extra, "field": "big-unit-holes"}
+    # differencing VHDX files opened by path whose parent locators form a cycle of length 1..3
+    for n in (1, 2, 3):
+        yield {"seed": "hdd-descriptor", "ops": [], "vhdx_parent_cycle": n}
+    # Parallels storages that do not join up (a hole, an overlap, reversed bounds) and a read across the seam
+    for variant in ("gap", "overlap", "reversed", "zero-length"):
+        yield {"seed": "hdd-descriptor", "ops": [], "hdd_storages": variant}
+    # long runs of one character inserted at the structural positions of the text formats (regular-expression back-tracking)
+    for sname in TEXT_SEEDS:
+        text = seeds()[sname][1]
+        pos = [i + 1 for i, c in enumerate(text) if c in b"(),/=\"%:"]
+        pos = sorted(set(pos[:: max(1, len(pos) // 24)] + [0, len(text)]))
+        for off in pos:
+            for ch in (" ", "\t", "(", "a", "%", "/"):
+                for count in (40, 3000):
+                    yield {"seed": sname, "ops": [["insert", off, ch, count]], "field": "run-insert"}
     yield {"seed": "qcow2-bomb", "ops": []}
     yield {"seed": "vmdk-bomb", "ops": []}
     # memory must follow the request at hand, not the number of earlier requests: sweep over many large compressed grains
@@ -322,7 +339,11 @@ def strategy_(draw, tier):
     nops = draw(st.sampled_from([1, 1, 1, 2, 3]))
     meta_end = min(n, 8192 if kind not in ("vhdx", "hyperv") else n)
     for _ in range(nops):
-        k = draw(st.sampled_from(["word", "word", "field", "trunc", "corrupt", "splice", "bitflip"]))
+        k = draw(st.sampled_from(["word", "word", "field", "trunc", "corrupt", "splice", "bitflip"] + (["insert", "insert", "insert"] if sname in TEXT_SEEDS else [])))
+        if k == "insert":
+            ops.append(["insert", draw(st.integers(0, n)), draw(st.sampled_from([" ", "\t", "(", ")", "a", "%", "/", "\"", "\n", ","])),
+                        draw(st.sampled_from([25, 40, 200, 3000]))])
+            continue
         if k == "field" and fields:
             fname = draw(st.sampled_from(sorted(fields)))
             off, width = fields[fname]
@@ -379,6 +400,10 @@ def apply_ops(data: bytes, ops) -> bytes:
         elif op[0] == "xor":
             if op[1] < len(b):
                 b[op[1]] ^= op[2]
+        elif op[0] == "insert":
+            _, off, ch, count = op
+            off = min(off, len(b))
+            b[off:off] = ch.encode() * count
     return bytes(b)
 
 
@@ -487,6 +512,47 @@ def drive(kind, data: bytes, spec):
     return stage
 
 
+def vhdx_parent_cycle_case(spec):
+    from dissect.hypervisor.disk.vhdx import VHDX
+
+    n = spec["vhdx_parent_cycle"]
+    d = scratch_dir()
+    try:
+        for i in range(n):
+            child = dict(c12.VHDX_SPEC, has_parent=True, blocks=[], meta_order=[0, 1, 2, 3, 4, 5],
+                         locator=[["relative_path", f".\\f{(i + 1) % n}.vhdx"]])
+            bvhdx.build(child)[0].write_to(os.path.join(d, f"f{i}.vhdx"))
+        v = VHDX(Path(d) / "f0.vhdx")
+        touch_stream(v)
+    finally:
+        shutil.rmtree(d, ignore_errors=True)
+
+
+def hdd_storages_case(spec):
+    from dissect.hypervisor.disk.hdd import HDD
+
+    bounds = {"gap": [(0, 24), (32, 56)], "overlap": [(0, 24), (16, 40)], "reversed": [(0, 24), (48, 24)],
+              "zero-length": [(0, 24), (24, 24), (24, 48)]}[spec["hdd_storages"]]
+    d = scratch_dir()
+    try:
+        root = os.path.join(d, "x.hdd")
+        os.mkdir(root)
+        with open(os.path.join(root, "x.hds"), "wb") as f:
+            f.write(c12.base_hds(2))
+        desc = {"disk_size": max(b for _a, b in bounds), "storages": [
+            {"start": a, "end": b, "images": [{"guid": bhdd.DEFAULT_TOP, "type": "Compressed", "file": "x.hds"}]} for a, b in bounds],
+            "shots": [{"guid": bhdd.DEFAULT_TOP, "parent": bhdd.NULL_GUID}]}
+        with open(os.path.join(root, "DiskDescriptor.xml"), "w") as f:
+            f.write(bhdd.descriptor_xml(desc))
+        s_ = HDD(Path(root)).open()
+        touch_stream(s_)
+        for off in (0, 20 * 512, 23 * 512, 24 * 512):  # requests across every seam
+            s_.seek(off)
+            s_.read(REQ)
+    finally:
+        shutil.rmtree(d, ignore_errors=True)
+
+
 def hdd_cycle_case(spec):
     from dissect.hypervisor.disk.hdd import HDD
 
@@ -590,10 +656,12 @@ def check(spec) -> Outcome:
     out.cls(sname)
     inp_len = 0
     runner = None
-    if "cycle" in spec:
-        runner = lambda: hdd_cycle_case(spec)  # noqa: E731
-        inp_len = 4096
-        out.cls("crafted-cycle")
+    runner_is_input = not ("cycle" in spec or "vhdx_parent_cycle" in spec or "hdd_storages" in spec)
+    if "cycle" in spec or "vhdx_parent_cycle" in spec or "hdd_storages" in spec:
+        fn = hdd_cycle_case if "cycle" in spec else vhdx_parent_cycle_case if "vhdx_parent_cycle" in spec else hdd_storages_case
+        runner = lambda: fn(spec)  # noqa: E731
+        inp_len = 4096 if "vhdx_parent_cycle" not in spec else 4 << 20
+        out.cls("crafted-cycle" if "hdd_storages" not in spec else "crafted")
         changed = True
     else:
         if "hv_cycle" in spec:
@@ -627,7 +695,7 @@ def check(spec) -> Outcome:
             except zlib.error:
                 pass
         runner = lambda: drive(kind, mutated, spec)  # noqa: E731
-    limit = BASE_MEM + 8 * (inp_len + 3 * REQ + max(unit, declared_unit(kind, mutated if "cycle" not in spec else b"")))
+    limit = BASE_MEM + 8 * (inp_len + 3 * REQ + max(unit, declared_unit(kind, mutated if runner_is_input else b"")))
     stage = "open"
     tracemalloc.start()
     t0 = time.process_time()
@@ -656,7 +724,7 @@ def check(spec) -> Outcome:
         tracemalloc.stop()
     where = sname if "field" not in spec else f"{sname}"
     if isinstance(err, MemoryError) or peak > limit:
-        if kind == "vmtar" and "cycle" not in spec and _lzma_probe_peak(mutated) > limit:
+        if kind == "vmtar" and runner_is_input and _lzma_probe_peak(mutated) > limit:
             # the allocation happens inside the standard library's xz/lzma probe of tarfile.open(mode="r"), before any
             # vmtar code runs: its own signature, so that it can be listed as a finding without hiding other vmtar failures
             where += "|stdlib-lzma-probe"
